@@ -52,10 +52,25 @@ def handler(c):
         mc.add_move(CellMove(), name="m")
     elif kind == "gc":
         ex = Atoms(c["species"])
-        mc = GrandCanonical(atoms, ex, temperature=123.0, chemical_potential=9.9, number_of_exchange_particles=77, seed=1)
+        hist = c.get("history", 0)
+        mc = GrandCanonical(atoms, ex, temperature=123.0, chemical_potential=9.9, number_of_exchange_particles=77 if not hist else c["N"] - hist, seed=1, max_cycles=1)
         mc.add_move(ExchangeMove(np.arange(n)), name="m")
         mc.chemical_potential = c["mu"]
-        mc.number_of_exchange_particles = c["N"]
+        if hist:
+            # the particle number the criteria reads is the simulation's OWN count after `hist` accepted insertions through the real driver
+            class Yes:
+                def evaluate(self, context):
+                    return True
+            real = mc.moves["m"].criteria
+            mc.moves["m"].criteria = Yes()
+            mc.moves["m"].move.bias_towards_insert = 1.0
+            for _ in mc.srun(hist):
+                pass
+            mc.moves["m"].criteria = real
+            rep["N_after_history"] = int(mc.number_of_exchange_particles)
+            rep["natoms_after_history"] = len(atoms)
+        else:
+            mc.number_of_exchange_particles = c["N"]
         mc.accessible_volume = c["V"]
         mc.context.particle_delta = c["delta"]
         rep["mass"] = float(ex.get_masses().sum())
